@@ -101,6 +101,8 @@ let proto_of = function "4" -> P_IPv4 | "6" -> P_IPv6 | "U" -> P_UDP | "C" -> P_
 let string_of_proto = function P_IPv4 -> "4" | P_IPv6 -> "6" | P_UDP -> "U" | P_CoAP -> "C" | P_SCTP -> "S" | P_Other -> "O"
 let read_fid () = let p = proto_of (next ()) in let i = next_int () in { fproto = p; fidx = z_of_int i }
 let dir_of = function "U" -> Up | "D" -> Dw | _ -> Bi
+(* rule nature token: "C" compression, "F" fragmentation, anything else ("N") no-compression *)
+let nature_of = function "C" -> Compression | "F" -> Fragmentation | _ -> NoCompression
 let read_dir_opt () = match next () with "N" -> None | d -> Some (dir_of d)
 let read_tv () =
   match next () with
@@ -118,7 +120,7 @@ let read_rfd () =
 let read_rule () =
   let _ = next () in (* "R" *)
   let id = next_bits () in
-  let nat = (match next () with "C" -> Compression | _ -> NoCompression) in
+  let nat = nature_of (next ()) in
   let n = next_int () in
   { rule_id = id; rule_nature = nat; rule_fds = repeat_read n read_rfd }
 let read_rules () = let n = next_int () in repeat_read n read_rule
@@ -221,6 +223,7 @@ let rec show_json = function
   | JCda NotSent -> "\"not-sent\"" | JCda LSB -> "\"least-significant-bits\"" | JCda MappingSent -> "\"mapping-sent\""
   | JCda ValueSent -> "\"value-sent\"" | JCda Compute -> "\"compute\""
   | JNature Compression -> "\"compression\"" | JNature NoCompression -> "\"no-compression\""
+  | JNature Fragmentation -> "\"fragmentation\""
   | JFid f -> "\"f" ^ string_of_proto f.fproto ^ string_of_int (int_of_z f.fidx) ^ "\""
   | JText t -> "\"t" ^ string_of_int (int_of_z t) ^ "\""
   | JList l -> "[" ^ String.concat "," (List.map show_json l) ^ "]"
@@ -243,7 +246,7 @@ let read_jrfd () =
 let read_jrule () =
   let _ = next () in
   let id = next_buf () in
-  let nat = (match next () with "C" -> Compression | _ -> NoCompression) in
+  let nat = nature_of (next ()) in
   let n = next_int () in
   { jr_id = id; jr_nature = nat; jr_fds = repeat_read n read_jrfd }
 let read_jcontext () =
@@ -285,7 +288,7 @@ let read_brfd () =
 let read_brule () =
   let _ = next () in
   let id = next_buf () in
-  let nat = (match next () with "C" -> Compression | _ -> NoCompression) in
+  let nat = nature_of (next ()) in
   let n = next_int () in
   { brule_id = id; brule_nature = nat; brule_fds = repeat_read n read_brfd }
 let read_bpdesc () =
